@@ -132,7 +132,31 @@ def rule_destroy(ctx, rep):
                     rep.ok("R-DESTROY", ik, cfg=tag)
                 else:
                     rep.bad("R-DESTROY", ik, msg, F.loc(b, tt["span"]), tag)
-    rep.floor("R-DESTROY", 3, "S1 site, S2 site, decrement gate")
+                if good:
+                    # every way out of the last owner's release - return, or unwinding started by user code (a panicking payload
+                    # destructor) - has returned the block to the allocator exactly once
+                    ik2 = "%s/last-owner-exits" % b["key"]
+                    one_tgts = set(tgt for tgt, tv in truth.items() if ((tv != neg) if op == "Eq" else not (tv != neg)))
+                    worst = None
+                    n_exits = 0
+                    for p in A.paths.get(b["key"], []):
+                        blocks = list(p.blocks)
+                        on_one = any(blocks[i] == sj and blocks[i + 1] in one_tgts for i in range(len(blocks) - 1))
+                        if not on_one or p.notes:
+                            continue
+                        if p.exit == "unw" and (p.origin or "std") not in ("user", "panic"):
+                            continue
+                        n_exits += 1
+                        nfree = vget(p.vec, "free_s1") + vget(p.vec, "free_raw")
+                        if nfree != 1 and worst is None:
+                            worst = (p, nfree)
+                    if worst:
+                        p, nfree = worst
+                        how = "returns" if p.exit == "ret" else "unwinds (started by %s)" % ("user code, e.g. a panicking payload destructor" if p.origin == "user" else "a library panic")
+                        rep.bad("R-DESTROY", ik2, balance.path_report(F, b, p, "the release that observed the last owner %s having returned the block to the allocator %d times instead of once: %s" % (how, nfree, "the memory is leaked" if nfree == 0 else "double free")), F.loc(b, tt["span"]), tag)
+                    elif n_exits:
+                        rep.ok("R-DESTROY", ik2, "%d exits" % n_exits, cfg=tag)
+    rep.floor("R-DESTROY", 4, "S1 site, S2 site, decrement gate, last-owner exits")
 
 
 def rule_moves(ctx, rep):
